@@ -131,6 +131,7 @@ package redis
 
 //@ func (*upstream).randomHost
 //@   prop C03
+//@   requires u != nil
 //@   modifies nothing
 
 //@ func (*upstream).chooseHost
@@ -246,58 +247,60 @@ package redis
 
 //@ func (*decoder).decodeInt
 //@   prop C10 C11
-//@   requires d != nil && readerRI(d.br)
-//@   modifies d.br.r, d.br.w, d.br.err, d.br.buf[0:len(d.br.buf)]
-//@   ensures @ri readerRI(d.br)
+//@   requires decoderOK(d)
+//@   modifies d.br.r, d.br.w, d.br.err, d.br.buf[0:len(d.br.buf)], fetched
+//@   ensures @ri decoderOK(d) && d.br == old(d.br)
 
 //@ func (*decoder).decodeTextBytes
 //@   prop C10 C11
-//@   requires d != nil && readerRI(d.br)
-//@   modifies d.br.r, d.br.w, d.br.err, d.br.buf[0:len(d.br.buf)], d.br.slice.allocs, d.br.slice.buf, d.br.slice.buf[0:len(d.br.slice.buf)]
-//@   ensures @ri readerRI(d.br)
+//@   requires decoderOK(d)
+//@   modifies d.br.r, d.br.w, d.br.err, d.br.buf[0:len(d.br.buf)], d.br.slice.allocs, d.br.slice.buf, d.br.slice.buf[0:len(d.br.slice.buf)], fetched
+//@   ensures @ri decoderOK(d) && d.br == old(d.br)
+//@   ensures @text-does-not-alias-the-read-buffer result1 == nil ==> disjoint(result0, d.br.buf)
 
 //@ func (*decoder).decodeBulkString
 //@   prop C10 C11
-//@   requires d != nil && readerRI(d.br)
-//@   modifies d.br.r, d.br.w, d.br.err, d.br.buf[0:len(d.br.buf)], d.br.slice.allocs, d.br.slice.buf, d.br.slice.buf[0:len(d.br.slice.buf)]
-//@   ensures @ri readerRI(d.br)
+//@   requires decoderOK(d)
+//@   modifies d.br.r, d.br.w, d.br.err, d.br.buf[0:len(d.br.buf)], d.br.slice.allocs, d.br.slice.buf, d.br.slice.buf[0:len(d.br.slice.buf)], fetched
+//@   ensures @ri decoderOK(d) && d.br == old(d.br)
 //@   ensures @bounded result1 == nil ==> len(result0) <= 536870912
+//@   ensures @bulk-does-not-alias-the-read-buffer result1 == nil && !isnil(result0) ==> disjoint(result0, d.br.buf)
 
 //@ func (*decoder).decodeArray
 //@   prop C10 C11
-//@   requires d != nil && readerRI(d.br)
+//@   requires decoderOK(d)
 //@   modifies all
-//@   ensures @ri d.br == old(d.br) && readerRI(d.br)
+//@   ensures @ri d.br == old(d.br) && decoderOK(d)
 //@   ensures @bounded result1 == nil ==> len(result0) <= 1048576
-//@   loop 0 invariant d.br == old(d.br) && readerRI(d.br) && len(array) == n && n <= 1048576
+//@   loop 0 invariant d.br == old(d.br) && decoderOK(d) && len(array) == n && n <= 1048576
 
 //@ func (*decoder).decodeInline
 //@   prop C10 C11
-//@   requires d != nil && readerRI(d.br)
+//@   requires decoderOK(d)
 //@   modifies all
-//@   ensures @ri d.br == old(d.br) && readerRI(d.br)
+//@   ensures @ri d.br == old(d.br) && decoderOK(d)
 //@   ensures @nonempty result1 == nil ==> result0 != nil && result0.Type == 42 && len(result0.Array) >= 1
-//@   loop 0 invariant 0 <= l && l <= r + 1 && r <= len(b) + 1 && d.br == old(d.br) && readerRI(d.br)
+//@   loop 0 invariant 0 <= l && l <= r + 1 && r <= len(b) + 1 && d.br == old(d.br) && decoderOK(d)
 
 //@ func (*decoder).decodeResp
 //@   prop C10 C11
-//@   requires d != nil && readerRI(d.br)
+//@   requires decoderOK(d)
 //@   modifies all
-//@   ensures @ri d.br == old(d.br) && readerRI(d.br)
+//@   ensures @ri d.br == old(d.br) && decoderOK(d)
 //@   ensures @value result1 == nil ==> result0 != nil
 
 //@ func (*decoder).decode
 //@   prop C10 C11
-//@   requires d != nil && readerRI(d.br)
+//@   requires decoderOK(d)
 //@   modifies all
-//@   ensures @ri d.br == old(d.br) && readerRI(d.br)
+//@   ensures @ri d.br == old(d.br) && decoderOK(d)
 //@   ensures @value result1 == nil ==> result0 != nil
 
 //@ func (*decoder).Decode
 //@   prop C10 C11
-//@   requires d != nil && readerRI(d.br)
+//@   requires decoderOK(d)
 //@   modifies all
-//@   ensures @ri d.br == old(d.br) && readerRI(d.br)
+//@   ensures @ri d.br == old(d.br) && decoderOK(d)
 //@   ensures @value result1 == nil ==> result0 != nil
 
 // ---- RESP value constructors -----------------------------------------------------------
